@@ -423,6 +423,8 @@ func runC01(c *Ctx) {
 	}
 	r := c.R
 	isKindSwitch := func(e ast.Expr) bool { return strings.HasSuffix(exprKey(e), ".Kind()") }
+	checkSourceReadOnly(r, p)
+	checkByteArrayKeySource(r, p)
 	// (1) dispatch mirror
 	for _, pair := range [][2]string{{"encodeBasedOnType", "decodeBasedOnType"}, {"mapEncodeBasedOnType", "mapDecodeBasedOnType"}} {
 		enc, dec := p.FuncDecl(pkgSerix, "API", pair[0]), p.FuncDecl(pkgSerix, "API", pair[1])
@@ -1729,6 +1731,8 @@ func runC03(c *Ctx) {
 			r.Fail("cmp/lexical", pkgSer+".ArrayRules.LexicalOrderWithoutDupsValidator", p.posStr(fd.Pos()), fmt.Sprintf("expected 1 -> order violation and 0 -> duplicate, found %v", cases))
 		}
 	}
+	checkTimestampSaturation(r, p)
+	checkArrayExactCount(r, p)
 }
 
 func selIdent(e ast.Expr) *ast.Ident {
@@ -2151,5 +2155,459 @@ func checkInputSlicesBounded(r *Reporter, p *Prog) {
 	}
 	if n < 4 {
 		r.Fail(rule, pkgSerix, "-", fmt.Sprintf("expected at least 4 input slice accesses (decodeMapKVPair, CheckTypeByte, AtMostOneOfEachTypeValidator, ReadSequenceOfObjects), found %d (vacuous)", n))
+	}
+}
+
+// stdlibByteWriters: standard-library functions that write into the byte slice passed at the
+// given argument index.
+var stdlibByteWriters = map[string]int{
+	"copy": 0, "binary.LittleEndian.PutUint16": 0, "binary.LittleEndian.PutUint32": 0, "binary.LittleEndian.PutUint64": 0,
+	"binary.BigEndian.PutUint16": 0, "binary.BigEndian.PutUint32": 0, "binary.BigEndian.PutUint64": 0,
+	"io.ReadFull": 1, "rand.Read": 0, "slices.Reverse": 0, "slices.Sort": 0, "sort.Slice": 0, "sort.SliceStable": 0,
+}
+
+// checkSourceReadOnly: the decoder never writes into the bytes it decodes. The Deserializer's
+// source (and the []byte parameter of the serix decode functions) belongs to the caller: it is
+// decoded again, hashed, compared by the element validators against the previous element, and
+// re-encoded values are compared with it. A store through the source or an alias of it, or
+// handing (a sub-slice of) it to a function that writes into its argument, changes what every
+// later reader of the same buffer sees. Aliases are followed through reaching definitions;
+// callees of the package through a "writes its parameter" summary (depth 3).
+func checkSourceReadOnly(r *Reporter, p *Prog) {
+	const rule = "decode/source-read-only"
+	n := 0
+	for _, pkg := range []string{pkgSer, pkgSerix} {
+		pk := p.Pkg(pkg)
+		if pk == nil {
+			r.Unresolved(rule, pkg, "package not loaded")
+			continue
+		}
+		info := pk.TypesInfo
+		di := p.decls()
+		// writesParam: the function stores into (an alias of) its idx-th parameter
+		var writesParam func(fd *ast.FuncDecl, idx, depth int) (string, bool)
+		// writesThrough reports a write through `target(e)` expressions in body
+		scan := func(f *FuncCFG, isTarget func(e ast.Expr, pt Point) bool, depth int) (string, bool) {
+			for _, b := range f.G.Blocks {
+				if !b.Live {
+					continue
+				}
+				for i, nd := range b.Nodes {
+					pt := Point{b, i}
+					where, hit := "", false
+					inspectNoLit(nd, func(m ast.Node) bool {
+						if hit {
+							return false
+						}
+						switch x := m.(type) {
+						case *ast.AssignStmt:
+							for _, l := range x.Lhs {
+								if ix, ok := ast.Unparen(l).(*ast.IndexExpr); ok && isTarget(ix.X, pt) {
+									where, hit = fmt.Sprintf("%s: element store %s", p.posStr(x.Pos()), types.ExprString(l)), true
+								}
+							}
+						case *ast.IncDecStmt:
+							if ix, ok := ast.Unparen(x.X).(*ast.IndexExpr); ok && isTarget(ix.X, pt) {
+								where, hit = fmt.Sprintf("%s: element update %s", p.posStr(x.Pos()), types.ExprString(x.X)), true
+							}
+						case *ast.CallExpr:
+							name := calleeShort(info, x)
+							if id, ok := ast.Unparen(x.Fun).(*ast.Ident); ok && id.Name == "copy" {
+								name = "copy"
+							}
+							if wi, ok := stdlibByteWriters[name]; ok && wi < len(x.Args) && isTarget(x.Args[wi], pt) {
+								where, hit = fmt.Sprintf("%s: %s writes into its argument %s", p.posStr(x.Pos()), name, types.ExprString(x.Args[wi])), true
+								return false
+							}
+							if fn := staticCallee(info, x); fn != nil && depth > 0 {
+								if hd := di.byFunc[fn.Origin()]; hd != nil && hd.Body != nil && di.infoOf[hd] == info {
+									for ai, a := range x.Args {
+										if isTarget(a, pt) {
+											if w, writes := writesParam(hd, ai, depth-1); writes {
+												where, hit = fmt.Sprintf("%s: handed to %s, which writes into it (%s)", p.posStr(x.Pos()), fn.Name(), w), true
+											}
+										}
+									}
+								}
+							}
+						}
+						return !hit
+					})
+					if hit {
+						return where, true
+					}
+				}
+			}
+			return "", false
+		}
+		memo := map[string]struct {
+			w  string
+			ok bool
+		}{}
+		writesParam = func(fd *ast.FuncDecl, idx, depth int) (string, bool) {
+			mk := fmt.Sprintf("%p/%d", fd, idx)
+			if v, ok := memo[mk]; ok {
+				return v.w, v.ok
+			}
+			memo[mk] = struct {
+				w  string
+				ok bool
+			}{"", false}
+			var param types.Object
+			k := 0
+			for _, fl := range fd.Type.Params.List {
+				for _, nm := range fl.Names {
+					if k == idx {
+						param = info.Defs[nm]
+					}
+					k++
+				}
+			}
+			if param == nil {
+				return "", false
+			}
+			f := newFuncCFGPlain(p, info, fd.Body, funcKey(pkg, fd))
+			var alias func(e ast.Expr, pt Point, d int) bool
+			alias = func(e ast.Expr, pt Point, d int) bool {
+				if d <= 0 {
+					return false
+				}
+				switch x := ast.Unparen(e).(type) {
+				case *ast.Ident:
+					o := objOfIdent(info, x)
+					if o == nil {
+						return false
+					}
+					defs, fromEntry := f.ReachingDefs(pt, o)
+					if o == param && (fromEntry || len(defs) == 0) {
+						return true
+					}
+					for _, df := range defs {
+						if df.Rhs != nil && alias(df.Rhs, df.At, d-1) {
+							return true
+						}
+					}
+				case *ast.SliceExpr:
+					return alias(x.X, pt, d-1)
+				}
+				return false
+			}
+			w, ok := scan(f, func(e ast.Expr, pt Point) bool { return alias(e, pt, 4) }, depth)
+			memo[mk] = struct {
+				w  string
+				ok bool
+			}{w, ok}
+			return w, ok
+		}
+		for _, fd := range p.AllFuncDecls(pkg) {
+			if fd.Body == nil || strings.HasSuffix(p.Fset.Position(fd.Pos()).Filename, "_test.go") {
+				continue
+			}
+			fkey := funcKey(pkg, fd)
+			isDeser := false
+			if fd.Recv != nil && len(fd.Recv.List) == 1 {
+				isDeser = strings.Contains(types.ExprString(fd.Recv.List[0].Type), "Deserializer")
+			}
+			lname := strings.ToLower(fd.Name.Name)
+			isDecodeFn := pkg == pkgSerix && strings.Contains(lname, "decode")
+			if !isDeser && !isDecodeFn {
+				continue
+			}
+			byteParams := map[types.Object]bool{}
+			if isDecodeFn {
+				for _, fl := range fd.Type.Params.List {
+					if s, ok := info.TypeOf(fl.Type).Underlying().(*types.Slice); ok {
+						if b, ok := s.Elem().Underlying().(*types.Basic); ok && b.Kind() == types.Uint8 {
+							for _, nm := range fl.Names {
+								byteParams[info.Defs[nm]] = true
+							}
+						}
+					}
+				}
+				if len(byteParams) == 0 {
+					continue
+				}
+			}
+			f := newFuncCFGPlain(p, info, fd.Body, fkey)
+			var isSource func(e ast.Expr, pt Point, d int) bool
+			isSource = func(e ast.Expr, pt Point, d int) bool {
+				if d <= 0 {
+					return false
+				}
+				switch x := ast.Unparen(e).(type) {
+				case *ast.SelectorExpr:
+					return isDeser && x.Sel.Name == "src"
+				case *ast.SliceExpr:
+					return isSource(x.X, pt, d-1)
+				case *ast.CallExpr:
+					return strings.HasSuffix(exprKey(x.Fun), ".RemainingBytes")
+				case *ast.Ident:
+					o := objOfIdent(info, x)
+					if o == nil {
+						return false
+					}
+					defs, fromEntry := f.ReachingDefs(pt, o)
+					if byteParams[o] && (fromEntry || len(defs) == 0) {
+						return true
+					}
+					for _, df := range defs {
+						if df.Rhs != nil && isSource(df.Rhs, df.At, d-1) {
+							return true
+						}
+					}
+				}
+				return false
+			}
+			n++
+			if w, writes := scan(f, func(e ast.Expr, pt Point) bool { return isSource(e, pt, 4) }, 3); writes {
+				r.Fail(rule, fkey, p.posStr(fd.Pos()), "the decoder writes into the bytes it is decoding ("+w+"): a second decode of the same buffer, the element validators that compare raw element bytes, and any comparison with a re-encoding see different bytes")
+			} else {
+				r.Pass(rule, fkey, p.posStr(fd.Pos()), "no store through the source or an alias of it; not handed to a function that writes into its argument")
+			}
+		}
+	}
+	if n < 30 {
+		r.Fail(rule, pkgSer, "-", fmt.Sprintf("expected the Deserializer methods and the serix decode functions (>= 30), found %d (vacuous)", n))
+	}
+}
+
+// checkByteArrayKeySource: a byte array behind a pointer is written by mapEncodeSlice under the
+// field key of the type settings it is handed, and read back by the pointer branch of
+// mapDecodeBasedOnType under the field key of the type settings it looks up. Both sides must take
+// those settings from the same source (the registry entry of the pointer type, or the merged
+// settings parameter): if one side uses the merged settings, in which a struct tag's key wins,
+// and the other the registry, the key written is not the key read.
+func checkByteArrayKeySource(r *Reporter, p *Prog) {
+	const rule = "mirror/byte-array-key-source"
+	key := pkgSerix + ".mapEncodeBasedOnType <-> mapDecodeBasedOnType (pointer to byte array)"
+	info := p.Pkg(pkgSerix).TypesInfo
+	enc, dec := p.FuncDecl(pkgSerix, "API", "mapEncodeBasedOnType"), p.FuncDecl(pkgSerix, "API", "mapDecodeBasedOnType")
+	if enc == nil || dec == nil {
+		r.Unresolved(rule, key, "dispatcher not found")
+		return
+	}
+	isTS := func(e ast.Expr) bool {
+		t := info.TypeOf(e)
+		return t != nil && strings.HasSuffix(strings.TrimPrefix(t.String(), "*"), "serix.TypeSettings")
+	}
+	// source class of a TypeSettings-typed expression at pt
+	classOf := func(f *FuncCFG, fd *ast.FuncDecl, e ast.Expr, pt Point) string {
+		params := map[types.Object]bool{}
+		for _, fl := range fd.Type.Params.List {
+			for _, nm := range fl.Names {
+				params[info.Defs[nm]] = true
+			}
+		}
+		o := objOfIdent(info, e)
+		if o == nil {
+			return "?" + exprKey(e)
+		}
+		defs, fromEntry := f.ReachingDefs(pt, o)
+		cls := map[string]bool{}
+		if params[o] && (fromEntry || len(defs) == 0) {
+			cls["merged settings parameter"] = true
+		}
+		for _, d := range defs {
+			if cl, ok := ast.Unparen(d.Rhs).(*ast.CallExpr); ok && strings.HasSuffix(exprKey(cl.Fun), ".typeSettingsRegistry.GetByType") && len(cl.Args) == 1 {
+				cls["registry entry of "+f.KeyAt(cl.Args[0], d.At)] = true
+			} else if d.Rhs != nil {
+				cls["?"+exprKey(d.Rhs)] = true
+			} else {
+				cls["?"] = true
+			}
+		}
+		var out []string
+		for k := range cls {
+			out = append(out, k)
+		}
+		sort.Strings(out)
+		return strings.Join(out, " | ")
+	}
+	// encoder: mapEncodeSlice(ctx, <sliceFromArray(...)>, _, ts, opts)
+	ef := newFuncCFGPlain(p, info, enc.Body, funcKey(pkgSerix, enc))
+	encCls := ""
+	for _, pt := range ef.Find(func(n ast.Node) bool {
+		cl, ok := n.(*ast.CallExpr)
+		return ok && strings.HasSuffix(exprKey(cl.Fun), ".mapEncodeSlice") && len(cl.Args) >= 4
+	}) {
+		var call *ast.CallExpr
+		inspectNoLit(ef.nodeAt(pt), func(n ast.Node) bool {
+			if cl, ok := n.(*ast.CallExpr); ok && strings.HasSuffix(exprKey(cl.Fun), ".mapEncodeSlice") && len(cl.Args) >= 4 {
+				call = cl
+			}
+			return true
+		})
+		if call == nil {
+			continue
+		}
+		v, _ := ef.ResolveToCall(call.Args[1], pt)
+		vc, ok := ast.Unparen(v).(*ast.CallExpr)
+		if !ok || calleeShort(info, vc) != "sliceFromArray" || len(vc.Args) != 1 {
+			continue
+		}
+		// the array behind a pointer: sliceFromArray(reflect.Indirect(value)) / sliceFromArray(value.Elem())
+		inner, ipt := ef.ResolveToCall(vc.Args[0], pt)
+		_ = ipt
+		if ic, ok := ast.Unparen(inner).(*ast.CallExpr); !ok || !(strings.HasSuffix(exprKey(ic.Fun), "reflect.Indirect") || strings.HasSuffix(exprKey(ic.Fun), ".Elem")) {
+			continue
+		}
+		for _, a := range call.Args {
+			if isTS(a) {
+				encCls = classOf(ef, enc, a, pt)
+			}
+		}
+	}
+	// decoder: the key of the index into the JSON object, in the block that is guarded by the
+	// bytes-type test of the array's slice
+	df := newFuncCFGPlain(p, info, dec.Body, funcKey(pkgSerix, dec))
+	decCls := ""
+	for _, b := range df.G.Blocks {
+		if !b.Live {
+			continue
+		}
+		for i, nd := range b.Nodes {
+			pt := Point{b, i}
+			inspectNoLit(nd, func(n ast.Node) bool {
+				ix, ok := n.(*ast.IndexExpr)
+				if !ok {
+					return true
+				}
+				if mt, ok := info.TypeOf(ix.X).Underlying().(*types.Map); !ok || mt.Key().String() != "string" {
+					return true
+				}
+				// TypeSettings-typed identifiers the key depends on (through its reaching definitions)
+				seen := map[types.Object]bool{}
+				var collect func(e ast.Expr, at Point, depth int)
+				collect = func(e ast.Expr, at Point, depth int) {
+					if depth <= 0 || e == nil {
+						return
+					}
+					ast.Inspect(e, func(m ast.Node) bool {
+						id, ok := m.(*ast.Ident)
+						if !ok {
+							return true
+						}
+						o := objOfIdent(info, id)
+						if o == nil || seen[o] {
+							return true
+						}
+						if _, isVar := o.(*types.Var); !isVar {
+							return true
+						}
+						seen[o] = true
+						if isTS(id) {
+							c := classOf(df, dec, id, at)
+							if decCls == "" || decCls == c {
+								decCls = c
+							} else {
+								decCls += " | " + c
+							}
+							return true
+						}
+						defs, _ := df.ReachingDefs(at, o)
+						for _, d := range defs {
+							collect(d.Rhs, d.At, depth-1)
+						}
+						return true
+					})
+				}
+				// only the pointer-to-array branch: the site is dominated by sliceFromArray
+				if _, miss := df.PathFromEntryAvoiding(pt, func(m ast.Node) bool {
+					cl, ok := m.(*ast.CallExpr)
+					return ok && calleeShort(info, cl) == "sliceFromArray"
+				}, nil); miss {
+					return true
+				}
+				collect(ix.Index, pt, 3)
+				return true
+			})
+		}
+	}
+	switch {
+	case encCls == "" || decCls == "":
+		r.Fail(rule, key, p.posStr(enc.Pos()), fmt.Sprintf("could not find the type settings used on both sides (encoder: %q, decoder: %q)", encCls, decCls))
+	case encCls != decCls || strings.Contains(encCls, "?"):
+		r.Fail(rule, key, p.posStr(enc.Pos()), fmt.Sprintf("the encoder writes the bytes under the field key of the %s, the decoder reads them under the field key of the %s: for a tagged field of a registered pointer-to-byte-array type the keys differ and the encoder's own output is rejected", encCls, decCls))
+	default:
+		r.Pass(rule, key, p.posStr(enc.Pos()), "both sides take the field key from the "+encCls)
+	}
+}
+
+// checkTimestampSaturation: the wire form of a time is its int64 nanosecond timestamp, saturated to
+// MaxInt64 only when the whole seconds exceed MaxNanoTimestampInt64Seconds (strictly: the last
+// representable second still has representable nanoseconds). The tabled relation is
+// MaxNanoTimestampInt64Seconds < seconds on both the writer (TimeToUint64) and the reader (ReadTime);
+// a non-strict test collapses a whole second of distinct timestamps into one encoding.
+func checkTimestampSaturation(r *Reporter, p *Prog) {
+	const rule = "cmp/timestamp-saturation"
+	info := p.Pkg(pkgSer).TypesInfo
+	for _, row := range []struct{ recv, name string }{{"", "TimeToUint64"}, {"Deserializer", "ReadTime"}} {
+		fd := p.FuncDecl(pkgSer, row.recv, row.name)
+		key := pkgSer + "." + row.name
+		if fd == nil {
+			r.Unresolved(rule, key, "function not found")
+			continue
+		}
+		f := newFuncCFG(p, info, fd.Body, key)
+		sat := f.Find(func(n ast.Node) bool {
+			as, ok := n.(*ast.AssignStmt)
+			return ok && len(as.Rhs) == 1 && rawKey(as.Rhs[0]) == "math.MaxInt64"
+		})
+		if len(sat) == 0 {
+			r.Fail(rule, key, p.posStr(fd.Pos()), "no saturation to math.MaxInt64 found")
+			continue
+		}
+		strict := f.RelEdgesAt(func(rel Rel) bool { return rel.L == "MaxNanoTimestampInt64Seconds" && rel.Op == "<" })
+		ok := true
+		for _, pt := range sat {
+			if w, only := f.OnlyThroughEdges(pt, strict); !only {
+				ok = false
+				r.Fail(rule, key, f.PosOf(pt), "the timestamp is saturated to MaxInt64 on a path that has not established seconds > MaxNanoTimestampInt64Seconds (strictly): timestamps inside the last representable second lose their value and several byte strings decode to the same time", w...)
+			}
+		}
+		if ok {
+			r.Pass(rule, key, f.PosOf(sat[0]), "saturation only when seconds > MaxNanoTimestampInt64Seconds")
+		}
+	}
+}
+
+// checkArrayExactCount: an array of N elements is encoded as exactly N elements; validated decoding
+// must reject any other count. In decodeArrayViaSlice (helpers spliced in) every write into the
+// array - Index(i).Set or reflect.Copy - is reachable only through the edge on which the decoded
+// slice's Len() equals the array's Len().
+func checkArrayExactCount(r *Reporter, p *Prog) {
+	const rule = "canonical/array-exact-count"
+	info := p.Pkg(pkgSerix).TypesInfo
+	fd := p.FuncDecl(pkgSerix, "", "decodeArrayViaSlice")
+	key := pkgSerix + ".decodeArrayViaSlice"
+	if fd == nil {
+		r.Unresolved(rule, key, "function not found")
+		return
+	}
+	f := newFuncCFG(p, info, fd.Body, key)
+	fills := f.Find(func(n ast.Node) bool {
+		cl, ok := n.(*ast.CallExpr)
+		if !ok {
+			return false
+		}
+		k := exprKey(cl.Fun)
+		return k == "reflect.Copy" || (strings.HasSuffix(k, ".Set") && strings.Contains(k, ".Index("))
+	})
+	equal := f.RelEdgesAt(func(rel Rel) bool {
+		return rel.Op == "==" && strings.HasSuffix(rel.L, ".Len()") && strings.HasSuffix(rel.R, ".Len()") && rel.L != rel.R
+	})
+	if len(fills) == 0 {
+		r.Fail(rule, key, p.posStr(fd.Pos()), "no write into the array found (Index(i).Set / reflect.Copy)")
+		return
+	}
+	ok := true
+	for _, pt := range fills {
+		if w, only := f.OnlyThroughEdges(pt, equal); !only {
+			ok = false
+			r.Fail(rule, key, f.PosOf(pt), "the array is filled on a path that has not established that the decoded element count equals the array length: an encoding with fewer (or more) elements than the array is accepted and re-encodes to different bytes", w...)
+		}
+	}
+	if ok {
+		r.Pass(rule, key, f.PosOf(fills[0]), "the array is filled only when the decoded count equals its length")
 	}
 }
